@@ -219,20 +219,33 @@ CONTRACTS['LogicalFile.add_no_format_frame_data'] = dict(
              ('payload-and-object-kept-as-given', 'result.data == data and result.no_format_object is no_format_object')])
 
 # ---------------------------------------------------------------------------------------------- generate_logical_records (C18, C12, C09)
-LFG = lambda: {'cls': 'LogicalFile', 'fields': {'defining_origin': 'oneof[none,opq:item]', '_no_format_frame_data': 'list[opq:nfdata]*1',
-                                               '_eflr_sets': {'cls': 'EFLRSetsDict', 'fields': {'frames_value': {'list': [{'cls': 'FrameItem', 'fields': {'name': 'str'}}]}}}}}
-SPEC_UFS['mfd_of'] = (('opq', 'opq'), 'opq')
+def LFG(n=1, store='clsdict{OriginSet:namedict{None:obj:ZSetT},ZoneSet:namedict{None:obj:ZSetT,N2:obj:ZSetT}}'):
+    # a logical file with n frames; its registry holds (besides the frame list, abstracted by `frames_value`) the sets named in `store`
+    return {'cls': 'LogicalFile', 'fields': {'defining_origin': 'oneof[none,opq:item]', '_no_format_frame_data': 'list[opq:nfdata]*1',
+                                             '_eflr_sets': {'cls': 'EFLRSetsDict', 'fields': {'__store__': store,
+                                                            'frames_value': {'list': [{'cls': 'FrameItem', 'fields': {'name': 'str'}}] * n}}}}}
+
+
+SPEC_UFS['mfd_of'] = (('opq', 'opq', 'opq', 'opq', 'opq', 'opq'), 'opq')
 CONTRACTS['DLISFile.generate_logical_records'] = dict(
-    props=['C18', 'C12', 'C09'],
-    self_fields={'logical_files': {'list': [LFG(), LFG()]}, '_eflr_sets': {'cls': 'EFLRSetsDict', 'fields': {'__store__': 'clsdict{}'}}},
-    params={'chunk_size': 'int?', 'data': 'none', 'kwargs': {}}, returns={'cls': 'SizedGenerator', 'fields': {}},
+    props=['C18', 'C12', 'C09', 'C11', 'C15'],
+    self_fields={'logical_files': {'list': [LFG(2), LFG(1, 'clsdict{OriginSet:namedict{None:obj:ZSetT}}')]}, '_eflr_sets': {'cls': 'EFLRSetsDict', 'fields': {'__store__': 'clsdict{}'}}},
+    params={'chunk_size': 'int?', 'data': 'oneof[none,opq:source]', 'kwargs': {'from_idx': 'int', 'to_idx': 'int?'}}, returns={'cls': 'SizedGenerator', 'fields': {}},
+    setup=["from_idx_in = kwargs['from_idx']", "to_idx_in = kwargs['to_idx']"],     # the window of this write, as passed in
     stubs={'get_all_items_for_set_type': dict(returns_expr_on_receiver='frames_value'),
-           '_make_multi_frame_data': dict(returns_uf='mfd_of', returns_tag='mfd', raises=True),
-           'generator': dict(returns='opq:gen', capture=True), '__len__': dict(returns='int')},
+           '_make_multi_frame_data': dict(returns_uf='mfd_of', returns_uf_kw=['data', 'from_idx', 'to_idx', 'chunk_size'], returns_tag='mfd', raises=True),
+           'generator': dict(returns='opq:gen', capture=True)},
     raises={'RuntimeError': 'self.logical_files[0].defining_origin is None or self.logical_files[1].defining_origin is None'},
     may_raise=['StubException'],
-    ensures=[('each-logical-file-builds-the-frame-data-of-its-own-frames-in-creation-order',
-              "stub_call_generator['multi_frame_data_objects'] == [[mfd_of(self.logical_files[0], self.logical_files[0]._eflr_sets.frames_value[0])], "
-              "[mfd_of(self.logical_files[1], self.logical_files[1]._eflr_sets.frames_value[0])]]")])
+    # C11 / C18: EVERY frame of EVERY logical file gets the same data source, row window and chunk size - the ones of this write
+    ensures=[('each-logical-file-builds-the-frame-data-of-its-own-frames-in-creation-order-from-the-same-data-window-and-chunk-size',
+              "stub_call_generator['multi_frame_data_objects'] == ["
+              "[mfd_of(self.logical_files[0], self.logical_files[0]._eflr_sets.frames_value[0], data, from_idx_in, to_idx_in, chunk_size), "
+              "mfd_of(self.logical_files[0], self.logical_files[0]._eflr_sets.frames_value[1], data, from_idx_in, to_idx_in, chunk_size)], "
+              "[mfd_of(self.logical_files[1], self.logical_files[1]._eflr_sets.frames_value[0], data, from_idx_in, to_idx_in, chunk_size)]]"),
+             # C15 / C12: the size handed to the writer's progress bar is the number of records the generator yields (per logical file:
+             # header + one per registered set + no-format data + one per row); progressbar raises ValueError beyond its max_value
+             ('announced-size-is-the-number-of-records-yielded',
+              "len(result) == (1 + 3 + 1 + len(mfd_of(self.logical_files[0], self.logical_files[0]._eflr_sets.frames_value[0], data, from_idx_in, to_idx_in, chunk_size)) + len(mfd_of(self.logical_files[0], self.logical_files[0]._eflr_sets.frames_value[1], data, from_idx_in, to_idx_in, chunk_size))) + (1 + 1 + 1 + len(mfd_of(self.logical_files[1], self.logical_files[1]._eflr_sets.frames_value[0], data, from_idx_in, to_idx_in, chunk_size)))")])
 OPQ_MODELS['gen'] = {'__isinstance__': {}, '__truthy__': True}
 OPQ_MODELS['item'] = {'__isinstance__': {}, '__truthy__': True}
